@@ -16,6 +16,9 @@ checks = {
  "C08": dict(engine="world-E", cat="exploration", ref="DESIGN.md §5 C08",
    text="seeded search over record streams, read fragmentations and pause timings around the flush interval, plus the exhaustive sweep of all 1-cut and 2-cut splits of each short base stream, against the real listener/framer on simulated TCP; emitted messages compared with an independent line-based reference framer.",
    note="trusted base: simulator and simnet (segment-preserving reads, deadline semantics of net.Conn); limits scaled down with the shipped relations; newline-terminated streams only"),
+ "C17": dict(engine="world-D", cat="exploration", ref="DESIGN.md §5 C17",
+   text="seeded search over the interleavings of sink registration, use and close with SIGHUP reloads (accepted and rejected) at the real ReloadableOrchestrator: the property's small case (two connections, one reload) with the distinct-interleaving count reported, larger API cases, and the composed case with the real listener on simulated TCP where descriptor numbers are reused like in the kernel; recording downstream orchestrators give the oracle R1-R6.",
+   note="trusted base: simulator, simnet's lowest-free descriptor model, simsignal; the end-to-end part of C17 (real Reloader, config files, delivery across reload) is decided in world A when that world is claimed"),
 }
 na_pure = {
  "C09":"pure single-threaded function of one input line (syslogParser.Parse): no schedule, clock, fault or interleaving for a simulator to own (DESIGN.md §6)",
